@@ -130,6 +130,7 @@ def conformance(ctx, xjson, progs, meta):
                     break
     variant = {}
     compared = 0
+    overrides = {}
     for op, pv in sorted(progs.items()):
         root = ROOT_OF.get(op, op)
         if root not in code.funcs:
@@ -143,6 +144,7 @@ def conformance(ctx, xjson, progs, meta):
             variant[op] = "+".join(sorted(fixed & rel)) or "as-is"
         else:
             problems.append("%s (%s):\n     code : %s\n     spec : %s   [repairs in force: %s]" % (op, root, fmt(got), fmt(want or []), sorted(fixed & rel)))
+            overrides[op] = got
     # resumer: every method is exactly one write transaction
     for m, evs in code.resumer.items():
         ks = [e["k"] for e in evs if e["k"] not in ("LIT",)]
@@ -214,6 +216,20 @@ def conformance(ctx, xjson, progs, meta):
                 leads.append("%s calls %s (line %s)" % (fn, e["r"], e.get("line")))
     rep = {"compared": compared, "variant": variant, "loop_functions": len(loop_funcs), "static_ownership_leads": leads}
     rep["problems"] = problems
+    rep["overrides"] = overrides
+    # Response channels created without buffer (Locks.tla: Unbuffered), by the command the creating function sends
+    unbuf, odd = set(), []
+    for fn, f in sorted(code.funcs.items()):
+        for c in f.get("chans", []) or []:
+            if c["r"] != "Response":
+                continue
+            cmds = [e["r"] for e in f["events"] if e["k"] == "SEND"]
+            if c["cap"] == 0 and cmds:
+                unbuf.add(cmds[0])
+            elif c["cap"] < 0:
+                odd.append("%s line %s" % (fn, c.get("line")))
+    rep["unbuffered"] = sorted(unbuf)
+    rep["unbuffered_unknown"] = odd
     return fixed, rep
 
 
@@ -236,8 +252,26 @@ def parse_printed(items):
 # ----------------------------------------------------------------------------------------------------------------------
 # TLC helpers (cfg with the Fixed set detected from the sources)
 # ----------------------------------------------------------------------------------------------------------------------
-def tlc_with_fixed(ctx, module, cfg, fixed, timeout, workers=None, generator=False):
+def tla_prog(seq):
+    return "<<" + ", ".join('[k |-> "%s", r |-> "%s", each |-> %s, g |-> %d, alt |-> %s]' % (k, r, "TRUE" if ea else "FALSE", g, "TRUE" if alt else "FALSE")
+                            for k, r, ea, g, alt in seq) + ">>"
+
+
+def tlc_with_fixed(ctx, module, cfg, fixed, timeout, workers=None, generator=False, unbuf=None, over=None):
     d = ctx._spec_copy()
+    if unbuf:
+        cpath = os.path.join(d, cfg)
+        ctxt = open(cpath).read()
+        ctxt = re.sub(r"(?m)^\s*Unbuffered\s*=.*$", "  Unbuffered = {" + ", ".join('"%s"' % u for u in sorted(unbuf)) + "}", ctxt)
+        open(cpath, "w").write(ctxt)
+    if over:
+        mp = os.path.join(d, module + ".tla")
+        mt = open(mp).read()
+        fun = " @@ ".join('("%s" :> %s)' % (o, tla_prog(sq)) for o, sq in sorted(over.items()))
+        mt2 = re.sub(r"(?m)^SrcOverDef == NoOver\s*$", "SrcOverDef == " + fun, mt)
+        if mt2 == mt:
+            raise vlib.MachineryError("cannot set SrcOverDef in " + module)
+        open(mp, "w").write(mt2)
     cp = os.path.join(d, cfg)
     txt = open(cp).read()
     lit = "{" + ", ".join('"%s"' % f for f in sorted(fixed)) + "}"
@@ -273,8 +307,9 @@ def cycles_of(items):
         core = tuple(sorted((p["op"], "DB" if p["k"] in ("DBB", "DBX") else p["k"], p["m"]) for p in it["procs"] if p["core"]))
         if not core:
             continue
-        c = cyc.setdefault(core, {"parties": core, "states": 0, "example": it})
+        c = cyc.setdefault(core, {"parties": core, "states": 0, "example": it, "ops": set()})
         c["states"] += 1
+        c["ops"] |= set(it.get("ops", []))
     return cyc
 
 
@@ -282,8 +317,13 @@ def shape_of(parties):
     return "+".join(sorted({m for _, _, m in parties}))
 
 
-def recipe_ops(parties):
-    return sorted({op for op, _, _ in parties})
+def recipe_ops(parties, extra=()):
+    """the operations of the cycle; when the event loop itself is a core party, also the operations that brought it there
+    (they have returned in the lock-up state: the closer, the stopper, the caller that left recvResponse)"""
+    ops = {op for op, _, _ in parties}
+    if "torrent.run" in ops:
+        ops |= set(extra)
+    return sorted(ops)
 
 
 # ----------------------------------------------------------------------------------------------------------------------
@@ -346,6 +386,12 @@ def root_pat(op):
 
 def match_party(gs, party, used):
     op, k, m = party
+    if k == "REPLY":     # the loop blocked in  req.Response <- answer
+        for g in gs:
+            if g["id"] not in used and g["state"].startswith("chan send") and any(f.startswith(RAIN + "torrent.(*torrent).run") for f in g["frames"]):
+                g["prim"] = "REPLY"
+                return g
+        return None
     for g in gs:
         if g["id"] in used or g["prim"] != k:
             continue
@@ -360,7 +406,7 @@ def match_party(gs, party, used):
     return None
 
 
-PRIM_ORDER = {"RL": 0, "WL": 1, "DB": 2, "WAITALL": 3, "WAITDONE": 4, "SEND": 5, "RECV": 6}
+PRIM_ORDER = {"REPLY": 7, "RL": 0, "WL": 1, "DB": 2, "WAITALL": 3, "WAITDONE": 4, "SEND": 5, "RECV": 6}
 
 
 def confirm_cycle(gs, parties):
@@ -761,8 +807,17 @@ def run(ctx):
                 raise vlib.MachineryError("%s failed on the repaired design:\n%s" % (cfg, out[-4000:]))
     # ---- 3. the tree as it is: TLC generates the lock-up cycles ---------------------------------------------------------
     cycles = {}
+    # Round-3 extension, OFF by default (VERIF_C20_SRCMODEL=1 turns it on; not yet run end-to-end on the unchanged tree):
+    # the model of the tree as it is takes (a) the capacity of the Response channels and (b) the step sequences of the
+    # operations that equal no transcription of Locks.tla FROM THE SOURCES, and MC_Locks_hyp.cfg adds probe recipes.
+    SRCMODEL = os.environ.get("VERIF_C20_SRCMODEL") == "1"
+    src_unbuf = set(rep.get("unbuffered", [])) if SRCMODEL else set()
+    if src_unbuf:
+        src_unbuf.add("statsCommandC")        # Torrent.Stats represents the four queries in the MC choices
+    src_over = {o: q for o, q in rep.get("overrides", {}).items() if q} if SRCMODEL else {}
+    ctx.extra["source_model"] = {"enabled": SRCMODEL, "unbuffered": sorted(rep.get("unbuffered", [])), "overridden": sorted(rep.get("overrides", {}))}
     for cfg in (["MC_Locks_asis.cfg"] if quick else ["MC_Locks_asis.cfg", "MC_Locks_asis_t.cfg"]):
-        ok, out, its = tlc_with_fixed(ctx, "MC_Locks", cfg, fixed, 3000, generator=True)
+        ok, out, its = tlc_with_fixed(ctx, "MC_Locks", cfg, fixed, 3000, generator=True, unbuf=src_unbuf, over=src_over)
         if not ok:
             raise vlib.MachineryError("generator run %s failed:\n%s" % (cfg, out[-4000:]))
         for k, c in cycles_of(its).items():
@@ -770,6 +825,17 @@ def run(ctx):
                 cycles[k]["states"] += c["states"]
             else:
                 cycles[k] = c
+    if SRCMODEL:
+        # probes: the interleavings in which the design rules of the command protocol matter (TLC: MC_Locks_hyp.cfg)
+        ok, out, its = tlc_with_fixed(ctx, "MC_Locks", "MC_Locks_hyp.cfg", set(meta["fixnames"]), 3000, generator=True)
+        if not ok:
+            raise vlib.MachineryError("generator run MC_Locks_hyp.cfg failed:\n" + out[-4000:])
+        hyp = cycles_of(its)
+        if not any(p[1] == "REPLY" for k in hyp for p in k):
+            raise vlib.MachineryError("MC_Locks_hyp.cfg: the REPLY action was not explored (vacuous)")
+        ctx.extra["probe_cycles"] = [{"parties": ["%s:%s:%s" % p for p in k], "ops": sorted(c["ops"])} for k, c in sorted(hyp.items())]
+        for k, c in hyp.items():
+            cycles.setdefault(k, c)
     shapes = {}
     for k, c in cycles.items():
         shapes.setdefault(shape_of(k), []).append(c)
@@ -804,10 +870,10 @@ def run(ctx):
     # 4a. stress recipes of the predicted cycles (non-race binary: the faster the loops the sooner the cycle closes)
     todo = []
     for sh, cs in sorted(shapes.items()):
-        cs = sorted(cs, key=lambda c: (recipe_ops(c["parties"]), c["parties"]))
+        cs = sorted(cs, key=lambda c: (recipe_ops(c["parties"], c.get("ops", ()) if SRCMODEL else ()), c["parties"]))
         seen_ops = set()
         for c in cs:
-            ro = tuple(recipe_ops(c["parties"]))
+            ro = tuple(recipe_ops(c["parties"], c.get("ops", ()) if SRCMODEL else ()))
             if ro in seen_ops:
                 continue
             seen_ops.add(ro)
@@ -820,7 +886,7 @@ def run(ctx):
     for i in range(0, len(todo), par):
         batch = []
         for j, (sh, c) in enumerate(todo[i:i + par]):
-            ro = recipe_ops(c["parties"])
+            ro = recipe_ops(c["parties"], c.get("ops", ()) if SRCMODEL else ())
             ch = Child(ctx, drv, "recipe%d" % (i + j), ["recipe", "-ops", ",".join(ro), "-dur", str(rec_dur), "-limit", str(rec_lim),
                                                           "-seed", str(ctx.seed)], wall=rec_dur / 1000 + rec_lim / 1000 + 60, race=False)
             batch.append((ch, sh, c, ro))
